@@ -195,6 +195,73 @@ func checkC02(e *Engine, r *Report) {
 			r.Check("R11:initial-free-before-first-balloon", "R11 partition frame lemmas", "the free set is reset before the first balloon of the new configuration is created", e.Pos(setConfig.Pos()), setConfig, p2 == nil, e.pathString(p2), true)
 		}
 	}
+	// a balloon created on demand is registered in the policy's list before it is handed out for a container
+	{
+		newBalloonFn := e.Fn(pkgBL, "balloons.newBalloon")
+		nb := e.callsTo(fillable, newBalloonFn)
+		for _, c := range nb {
+			var nbV ssa.Value
+			if c.Value() != nil && c.Value().Referrers() != nil {
+				for _, ref := range *c.Value().Referrers() {
+					if ex, ok := ref.(*ssa.Extract); ok && ex.Index == 0 {
+						nbV = ex
+					}
+				}
+			}
+			if nbV == nil {
+				continue
+			}
+			isNew := func(v ssa.Value) bool {
+				if unspill(v) == nbV {
+					return true
+				}
+				if u, ok := v.(*ssa.UnOp); ok && u.Op == token.MUL {
+					if al := cellOf(u.X); al != nil {
+						for _, st := range cellStores(al) {
+							if st.Val == nbV {
+								return true
+							}
+						}
+					}
+				}
+				return false
+			}
+			registers := func(in ssa.Instruction) bool {
+				st, ok := in.(*ssa.Store)
+				if !ok || fieldOfAddr(st.Addr) != fBlns {
+					return false
+				}
+				call, ok := st.Val.(*ssa.Call)
+				if !ok {
+					return false
+				}
+				bi, ok := call.Common().Value.(*ssa.Builtin)
+				if !ok || bi.Name() != "append" {
+					return false
+				}
+				for _, el := range sliceLiteralElems(call.Common().Args[1]) {
+					if isNew(el) {
+						return true
+					}
+				}
+				return false
+			}
+			p := FindPath(PathQuery{Fn: fillable, From: c.(ssa.Instruction), Block: registers, Target: func(in ssa.Instruction) bool {
+				ret, ok := in.(*ssa.Return)
+				if !ok {
+					return false
+				}
+				for _, el := range sliceLiteralElems(retValue(ret, 0)) {
+					if isNew(el) {
+						return true
+					}
+				}
+				return false
+			}})
+			r.Check("R3:new-balloon-registered-before-use", "ownership", "a balloon created for a container is in the policy's list of balloons before it is returned as the container's balloon", e.InstrPos(c), fillable, p == nil, e.pathString(p), true)
+		}
+		r.MinInstances("newBalloon calls in fillableBalloonInstances", len(nb), 1)
+	}
 	// a container is looked up in the balloon that lists its own id; a balloon is deleted alone
 	if fn := r.Anchor(pkgBL, "balloons.balloonByContainer"); fn != nil && len(fn.Params) == 2 {
 		cP := ssa.Value(fn.Params[1])
@@ -693,6 +760,73 @@ func checkC02(e *Engine, r *Report) {
 			})
 			_ = pinnable
 			r.Check("R11:pinned-set", "confinement", "each member container is told exactly the balloon's Cpus ∪ SharedIdleCpus, or one thread per core of exactly that set", e.InstrPos(c), updPin, okSet && any, "", true)
+			// hyperthreads: the reduced set is told exactly to the containers that ask to run without hyperthreads, and it
+			// has been computed (not left at its empty zero value) when it is told
+			{
+				var htCall ssa.Value
+				AllInstrs(updPin, func(in ssa.Instruction) {
+					if cc, ok := in.(*ssa.Call); ok && callObj(cc.Common()) != nil && callObj(cc.Common()).Name() == "runWithoutHyperthreads" {
+						htCall = cc
+					}
+				})
+				isSingle := func(v ssa.Value) bool {
+					cc, ok := v.(*ssa.Call)
+					return ok && callObj(cc.Common()) != nil && callObj(cc.Common()).Name() == "SingleThreadForCPUs"
+				}
+				if htCall == nil {
+					r.Undecided("R11:pinned-set-hyperthreads", "confinement", "updatePinning consults runWithoutHyperthreads", e.InstrPos(c), updPin, "call not found")
+				} else {
+					ht := func(val bool) Assumption {
+						return func(cond ssa.Value) (bool, bool) {
+							if unspill(cond) == htCall {
+								return true, val
+							}
+							return false, false
+						}
+					}
+					okHT, whyHT := true, ""
+					// without the wish: nothing reduced reaches the call
+					OriginsUnder(updPin, arg, ht(false), func(v ssa.Value) bool {
+						if isSingle(v) {
+							okHT, whyHT = false, "a container that does not ask for it is told the one-thread-per-core set"
+						}
+						if u, ok := v.(*ssa.UnOp); ok && u.Op == token.MUL {
+							if al, isAl := u.X.(*ssa.Alloc); isAl {
+								for _, st := range reachingStores(al, u) {
+									if reachableBlock(updPin, st.Block(), ht(false)) && isSingle(st.Val) {
+										okHT, whyHT = false, "a container that does not ask for it is told the one-thread-per-core set"
+									}
+								}
+								return true
+							}
+						}
+						return false
+					})
+					// with the wish: the full set does not reach the call, and an empty (not yet computed) reduced set is
+					// computed before it is told
+					emptyStill := func(cond ssa.Value) (bool, bool) {
+						if k, v := ht(true)(cond); k {
+							return k, v
+						}
+						_, y, op, ok := cmpOriented(cond, func(v ssa.Value) bool {
+							cc, ok := v.(*ssa.Call)
+							return ok && callObj(cc.Common()) != nil && callObj(cc.Common()).Name() == "Size"
+						})
+						if ok && isConstInt(y, 0) {
+							return cmpZero(sgZero, op)
+						}
+						return false, false
+					}
+					computes := func(in ssa.Instruction) bool {
+						v, ok := in.(ssa.Value)
+						return ok && isSingle(v)
+					}
+					if p := FindPath(PathQuery{Fn: updPin, From: htCall.(ssa.Instruction), Assume: emptyStill, Block: computes, Target: func(in ssa.Instruction) bool { return in == c.(ssa.Instruction) }}); p != nil {
+						okHT, whyHT = false, "a container asking to run without hyperthreads can be told a set that was never reduced/computed: "+e.pathString(p)
+					}
+					r.Check("R11:pinned-set-hyperthreads", "confinement", "the one-thread-per-core set is told exactly to the containers that ask to run without hyperthreads, and it is computed before it is told", e.InstrPos(c), updPin, okHT, whyHT, true)
+				}
+			}
 			r.Check("R11:pinned-set-same-balloon", "confinement", "the set told is computed for the balloon being pinned in this iteration (no value is carried over from the previous balloon of the loop)", e.InstrPos(c), updPin, crossIter == "" && blnDef != nil,
 				"the set reaches pinCpuMem through a merge outside the current balloon's iteration: "+crossIter, true)
 			// the container pinned is a member of that balloon: looked up by an id ranging over bln.ContainerIDs()
@@ -917,6 +1051,41 @@ func checkC02(e *Engine, r *Report) {
 					e.InstrPos(in), resize, okDir, "", true)
 			})
 			r.MinInstances("grow/shrink stores of Balloon.Cpus in resizeBalloon", nDir, 2)
+		}
+		// … and a resize that reports success without changing anything is possible only when the target equals the size
+		{
+			fBlnCpus := e.Field(pkgBL, "Balloon", "Cpus")
+			differs := func(cond ssa.Value) (bool, bool) {
+				b, ok := cond.(*ssa.BinOp)
+				if !ok || (b.Op != token.EQL && b.Op != token.NEQ) {
+					return false, false
+				}
+				isSize := func(v ssa.Value) bool {
+					hit := false
+					Origins(v, func(o ssa.Value) bool {
+						if c, ok := o.(*ssa.Call); ok && callObj(c.Common()) != nil && callObj(c.Common()).Name() == "Size" {
+							if f, _ := loadedField(callArgs(c)[0]); f == fBlnCpus {
+								hit = true
+							}
+						}
+						return hit
+					})
+					return hit
+				}
+				if isSize(b.X) != isSize(b.Y) { // current size compared with the target count
+					return true, b.Op == token.NEQ
+				}
+				return false, false
+			}
+			changes := func(in ssa.Instruction) bool {
+				st, ok := in.(*ssa.Store)
+				return ok && fieldOfAddr(st.Addr) == fBlnCpus
+			}
+			p := FindPath(PathQuery{Fn: resize, Assume: differs, Block: changes, Target: func(in ssa.Instruction) bool {
+				ret, ok := in.(*ssa.Return)
+				return ok && e.maySucceed(ret)
+			}})
+			r.Check("R2:resize-noop-only-at-target", "R2 limits", "resizeBalloon reports success without changing the balloon's CPUs only when the (clamped) target equals its current size", e.Pos(resize.Pos()), resize, p == nil, e.pathString(p), true)
 		}
 		// newBalloon: creation unreachable when MaxBalloons is reached
 		var mk ssa.Instruction
